@@ -360,9 +360,26 @@ def build(tier):
     for k_, f_ in ndt.LIB.items():
         P.lib.setdefault(k_, f_)
     P.trusted.append(ndt.DOC)
+    def wiring_window_reset():
+        """the caller-history precondition of add() - the stream is continuous - is re-established by the training loop: every
+        env.reset() at the start of an agent's turn in train_off_policy is followed by clearing the pending n-step window (AST)"""
+        import ast
+        from pyvc import front
+        owner, m, fn = front.find_function("agilerl.training.train_off_policy.train_off_policy")
+        bad = []
+        for blk in [x for x in ast.walk(fn) if isinstance(getattr(x, "body", None), list)]:
+            stmts = blk.body
+            for i, stx in enumerate(stmts):
+                if isinstance(stx, ast.Assign) and ast.unparse(stx.value).startswith("env.reset(") and ast.unparse(stx.targets[0]).strip("()").startswith("state"):
+                    after = " ".join(ast.unparse(r) for r in stmts[i + 1:i + 4])
+                    in_step_loop = any(isinstance(p_, ast.If) and "is_vectorised" in ast.unparse(p_.test) for p_ in [blk])
+                    if not in_step_loop and not ("n_step_buffer" in after and ".clear()" in after):
+                        bad.append(f"line {stx.lineno}: `{ast.unparse(stx)}` is not followed by clearing the n-step window")
+        return not bad, "every reset at the start of an agent's turn clears the pending n-step window" if not bad else "; ".join(bad)
+    P.syntactic.append(("train_off_policy.window-cleared-after-reset", wiring_window_reset))
     P.assumptions += ["A-REAL: rewards/discounts are reals; gamma**k is an uninterpreted pow with pow(x,0)=1",
                       "the window is a read-only sequence inside _get_n_step_info (deque(maxlen) semantics trusted in add)",
-                      "stream continuity across env.reset() between agents in train_off_policy is a caller-history precondition (not checked)"]
+                      "stream continuity across env.reset() between agents: the window is cleared after the reset (AST obligation); truncations and next-step auto-reset filler steps remain a caller-history precondition (known findings C10b_demo_2/3)"]
     P.trusted += ["TensorDict/tensor model of C10: fields are per-env vectors; clone/to keep values; `+=`/`*` are element-wise; "
                   ".bool().any() is 'some env has a non-zero flag'"]
     P.uncovered += ["continuity of the transition stream across env.reset() between agents (caller history)",
